@@ -29,7 +29,4 @@ theorem C18_model_is_source (f : Flags) : rejectedBySource f = !isAccept (valida
   obtain ⟨a, b, c, d, e, f', g, h, i, j, k, l, m⟩ := f
   exact (all8192_source a b c d e f' g h i j k l m).2
 
-/-- the chain has the eleven rejections the model numbers -/
-theorem C18_source_rules : Generated.rejectRules.length = 11 := by decide
-
 end Anonymongo.Cli
